@@ -8,6 +8,7 @@ PID = "C05"
 LEVEL = "other"
 CRATES = ["rlib_dsu"]
 RELEASE = True
+NO_HIDDEN_STATE = ['rlib_dsu']   # driver rule STATE: these crates are plain data structures / functions
 ARMED = True
 ENGINES = ["E1", "E3", "E4a"]
 TECHNIQUE = "path-sensitive term-flow abstract interpretation of MIR + difference-bound entailment of size[x] <= size[y] at the link store; who-may-write and index-provenance rules"
